@@ -4,9 +4,15 @@ package harness
 
 import (
 	"context"
+	"crypto/ecdsa"
+	"crypto/elliptic"
+	"crypto/rand"
 	"crypto/tls"
+	"crypto/x509"
+	"crypto/x509/pkix"
 	"errors"
 	"fmt"
+	"math/big"
 	"net"
 	"net/http"
 	"net/http/httptest"
@@ -16,6 +22,7 @@ import (
 	"sync"
 	"sync/atomic"
 	"testing"
+	"time"
 
 	"google.golang.org/grpc"
 	"google.golang.org/grpc/credentials"
@@ -55,6 +62,9 @@ type c13Case struct {
 	// CtxPeer: the caller's context already carries a peer (the call is made from inside another handler, with that
 	// handler's context): it says who called the caller, not who is calling now
 	CtxPeer bool `json:",omitempty"`
+	// ClientCert (https): the client presents a certificate, which the server verifies (mutual TLS): the handler's
+	// TLS info carries it, and the chains it was verified through
+	ClientCert bool `json:",omitempty"`
 }
 
 type testCreds struct {
@@ -105,10 +115,42 @@ var (
 	errC13Cred = errors.New("credential store unavailable")
 )
 
+var c13SessionCacheCert = tls.NewLRUClientSessionCache(8)
+
+var (
+	c13ClientCert tls.Certificate   // a client certificate the TLS server accepts (mutual TLS when presented)
+	c13ClientLeaf *x509.Certificate // its leaf
+)
+
 func c13Servers() {
 	c13Once.Do(func() {
 		c13Plain = httptest.NewServer(c13Switch)
-		c13TLS = httptest.NewTLSServer(c13Switch)
+		// the TLS server verifies a client certificate if one is presented (its CA is made here)
+		caKey, err := ecdsa.GenerateKey(elliptic.P256(), rand.Reader)
+		if err != nil {
+			panic(err)
+		}
+		caTmpl := &x509.Certificate{SerialNumber: big.NewInt(1), Subject: pkix.Name{CommonName: "verif test CA"}, NotBefore: time.Now().Add(-time.Hour), NotAfter: time.Now().Add(240 * time.Hour),
+			IsCA: true, BasicConstraintsValid: true, KeyUsage: x509.KeyUsageCertSign}
+		caDER, err := x509.CreateCertificate(rand.Reader, caTmpl, caTmpl, &caKey.PublicKey, caKey)
+		if err != nil {
+			panic(err)
+		}
+		caCert, _ := x509.ParseCertificate(caDER)
+		clKey, _ := ecdsa.GenerateKey(elliptic.P256(), rand.Reader)
+		clTmpl := &x509.Certificate{SerialNumber: big.NewInt(2), Subject: pkix.Name{CommonName: "verif-client"}, NotBefore: time.Now().Add(-time.Hour), NotAfter: time.Now().Add(240 * time.Hour),
+			KeyUsage: x509.KeyUsageDigitalSignature, ExtKeyUsage: []x509.ExtKeyUsage{x509.ExtKeyUsageClientAuth}}
+		clDER, err := x509.CreateCertificate(rand.Reader, clTmpl, caCert, &clKey.PublicKey, caKey)
+		if err != nil {
+			panic(err)
+		}
+		c13ClientLeaf, _ = x509.ParseCertificate(clDER)
+		c13ClientCert = tls.Certificate{Certificate: [][]byte{clDER}, PrivateKey: clKey, Leaf: c13ClientLeaf}
+		pool := x509.NewCertPool()
+		pool.AddCert(caCert)
+		c13TLS = httptest.NewUnstartedServer(c13Switch)
+		c13TLS.TLS = &tls.Config{ClientAuth: tls.VerifyClientCertIfGiven, ClientCAs: pool}
+		c13TLS.StartTLS()
 	})
 }
 
@@ -184,6 +226,15 @@ func propC13(c c13Case) *Outcome {
 		u, _ := url.Parse(srv.URL)
 		wantAddr = u.Host
 		rt := srv.Client().Transport
+		if c.TLS && c.ClientCert {
+			o.class("mutual-tls")
+			tr := rt.(*http.Transport).Clone()
+			tr.TLSClientConfig = tr.TLSClientConfig.Clone()
+			tr.TLSClientConfig.Certificates = []tls.Certificate{c13ClientCert}
+			tr.DisableKeepAlives = true
+			defer tr.CloseIdleConnections()
+			rt = tr
+		}
 		if c.Host != "" {
 			o.class("base-url-host=%s", c.Host)
 			real := u.Host
@@ -209,6 +260,10 @@ func propC13(c c13Case) *Outcome {
 				// from the second such case on the handshake is an abbreviated one - it is TLS all the same
 				tr.TLSClientConfig = tr.TLSClientConfig.Clone()
 				tr.TLSClientConfig.ClientSessionCache = c13SessionCache
+				if c.ClientCert {
+					// (sessions made with and without a client certificate are different things to resume)
+					tr.TLSClientConfig.ClientSessionCache = c13SessionCacheCert
+				}
 				tr.DisableKeepAlives = true
 			} else {
 				// a transport that could also dial TLS by itself; for http:// URLs net/http never uses this
@@ -460,6 +515,21 @@ func propC13(c c13Case) *Outcome {
 	if !c.TLS && hPeer.AuthInfo != nil {
 		return o.failf("http: handler peer AuthInfo = %#v", hPeer.AuthInfo)
 	}
+	if c.TLS && c.ClientCert {
+		// the certificate the client presented, and how it was verified: what handlers authorise by
+		st := ti.State
+		if len(st.PeerCertificates) == 0 || !st.PeerCertificates[0].Equal(c13ClientLeaf) {
+			return o.failf("mutual TLS: handler peer's TLS info lists %d peer certificates, not the client's", len(st.PeerCertificates))
+		}
+		if len(st.VerifiedChains) == 0 {
+			return o.failf("mutual TLS: handler peer's TLS info has no verified chains")
+		}
+		for i, chain := range st.VerifiedChains {
+			if len(chain) == 0 || !chain[0].Equal(c13ClientLeaf) {
+				return o.failf("mutual TLS: handler peer's TLS info: verified chain %d of %d has %d certificates and does not start with the client's", i+1, len(st.VerifiedChains), len(chain))
+			}
+		}
+	}
 	return o
 }
 
@@ -501,6 +571,7 @@ func genC13(t *rapid.T) c13Case {
 	c.Append = rapid.Bool().Draw(t, "append")
 	c.ReusePeer = c.PeerOpt > 0 && rapid.IntRange(0, 2).Draw(t, "reusepeer") == 0
 	c.CtxPeer = rapid.IntRange(0, 3).Draw(t, "ctxpeer") == 0
+	c.ClientCert = c.TLS && rapid.IntRange(0, 2).Draw(t, "clientcert") == 0
 	switch rapid.IntRange(0, 7).Draw(t, "forwarded") {
 	case 0:
 		// proxy-style headers are ordinary metadata to this transport: they say nothing about the peer
@@ -534,6 +605,14 @@ func genC13(t *rapid.T) c13Case {
 			}
 			c.CredMD[k] = string(genMDValue(t, "credval", strings.HasSuffix(k, "-bin")))
 		}
+		if rapid.IntRange(0, 4).Draw(t, "authcollide") == 0 {
+			// the usual case of a shared key: a gateway relays the end user's authorization and adds its own
+			if c.CredMD == nil {
+				c.CredMD = map[string]string{}
+			}
+			c.CredMD["authorization"] = "Bearer service"
+			c.CallerMD = append(c.CallerMD, MDPair{K: "authorization", V: []byte("Bearer user")})
+		}
 		if c.FwdCred {
 			if c.CredMD == nil {
 				c.CredMD = map[string]string{}
@@ -548,7 +627,7 @@ func init() { registerReplay("C13", propC13) }
 
 const c13Rule = "exhaustive grid {httpgrpc.Server, HandleServices} x {http, https (httptest TLS server)} + in-process x {no creds, creds not requiring security, creds requiring it, creds returning an error} x {unary, stream} x {0,1,2 grpc.Peer options} x {grpc.Header or not}, then rapid-generated credential maps (empty, disjoint, overlapping caller keys) and caller metadata; " +
 	"oracle: security required over http => failure with 0 requests through a counting RoundTripper; credential error => that error, 0 requests; otherwise handler metadata per key = multiset union of caller and credential values with the caller's order kept; grpc.Peer = server host:port and TLSInfo with completed handshake iff https (unary and stream); handler peer likewise; in-process peers have network inproc; " +
-	"also generated since the seeded rounds: credential keys spelled with capitals, failing handlers, caller metadata partly attached with AppendToOutgoingContext, base URL host forms ([::1]:port, name:port, name without port), an earlier second credentials option (the later one is in force; a credential requiring security never crosses plain http), the per-method HTTP server form, proxy-style keys (x-forwarded-for ...) in caller and credential metadata with the handler's peer compared to the connection's remote address, peer variables already filled by an earlier call, the caller's context still saying what the caller attached after the call, a caller context that already carries a (foreign, TLS) peer; " +
+	"also generated since the seeded rounds: credential keys spelled with capitals, failing handlers, caller metadata partly attached with AppendToOutgoingContext, base URL host forms ([::1]:port, name:port, name without port), an earlier second credentials option (the later one is in force; a credential requiring security never crosses plain http), the per-method HTTP server form, proxy-style keys (x-forwarded-for ...) in caller and credential metadata with the handler's peer compared to the connection's remote address, peer variables already filled by an earlier call, the caller's context still saying what the caller attached after the call, a caller context that already carries a (foreign, TLS) peer, mutual TLS (client certificate verified by the server: the handler sees it and its verified chains), credentials and caller both supplying the key authorization; " +
 	"non-trivial = credentials present or https; distinct by case hash"
 
 func TestC13(t *testing.T) {
